@@ -114,6 +114,8 @@ FINDINGS = {
     "F27-entities-sheet-without-list-name": ("KeyError", "get_validated_dataset_name"),
     "F28-control-character-with-reference": ("ExpatError", "node"),
     "F42-settings-slot-with-plain-text": ("AttributeError", "__no_such_site__"),     # matched by the structural predicate in classify()
+    "F46-osm-tag-cycle": ("RecursionError", "has_external_choices"),
+    "F47-grouped-extra-choice-column": ("AttributeError", "__no_such_site__"),     # structural predicate in classify()
 }
 FINDING_INPUTS = {
     "F4c-external-select-unfiltered": {"survey": [{"type": "select_one_external cities", "name": "c", "label": "C"}],
@@ -123,6 +125,8 @@ FINDING_INPUTS = {
                                   "choices": [{"list_name": "l", "name": "a", "label": "A"}]},
     "F23-header-jr": {"survey": [{"type": "text", "name": "q", "label": "Q", "jr": "x"}]},
     "F42-settings-slot-with-plain-text": {"survey": [{"type": "text", "name": "q", "label": "Q"}], "settings": [{"bind": "text"}]},
+    "F46-osm-tag-cycle": {"survey": [{"type": "osm zz", "name": "q1", "label": "L"}], "osm": [{"list_name": "zz", "name": "zz", "label": "l"}]},
+    "F47-grouped-extra-choice-column": {"survey": [{"type": "select_one l", "name": "q", "label": "Q"}], "choices": [{"list_name": "l", "name": "x", "label": "X", "region::code": "v"}]},
     "F27-entities-sheet-without-list-name": {"survey": [{"type": "text", "name": "q", "label": "Q"}], "entities": [{"label": "x"}]},
     "F28-control-character-with-reference": {"survey": [{"type": "text", "name": "q", "label": "Q"}, {"type": "note", "name": "n", "label": "a\x01 ${q}"}]},
 }
@@ -146,6 +150,11 @@ def classify(crash, form=None):
     for slug, (tname, fn) in FINDINGS.items():
         if crash[0] == tname and crash[1] == fn:
             return slug
+    # an extra choices column whose header holds a colon is grouped into a nested dict (like label::en) and handed to node() as an element's text
+    KNOWN_CH = {"label", "hint", "image", "audio", "video", "big-image", "media", "constraint_message", "required_message", "guidance_hint", "name", "value", "list_name", "list name"}
+    if form and crash[0] == "AttributeError" and crash[1] == "node" and "'dict' object has no attribute 'nodeType'" in crash[2] and any(
+            ":" in str(k) and "_".join(str(k).split(":")[0].split()).lower() not in KNOWN_CH for row in form.get("choices", []) for k in row):
+        return "F47-grouped-extra-choice-column"
     # a settings column named after a Survey slot that holds a structure (bind, control, _translations ...) with a plain text value:
     # the text is handed to Survey(**kwargs) and used as the dict it is not
     SLOTS = {"bind", "control", "_translations", "_xpath", "instance", "media", "parameters", "choices", "extra_data"}
@@ -485,7 +494,50 @@ def fuzz_form(rng):
         form["entities"] = [{k: v for k, v in ((rng.choice(["dataset", "list_name", "label"]), rng.choice(["e", "__x", "a.b"])), ("label", rng.choice(["${q}", "x"])))}]
     if rng.random() < 0.1:
         form["osm"] = [{"list_name": rng.choice(["l", "zz"]), "name": "k", "label": "K"}]
+    if rng.random() < 0.5:
+        rich_sheets(rng, form)
     return form
+
+
+FZ_SETTINGS = {"form_title": ["T", "${q}", "<b>"], "form_id": ["f", "a b", "1a"], "version": ["1", "v 1"], "default_language": ["en", "English (en)", "default", "fr"],
+               "public_key": ["abc"], "submission_url": ["http://x/y?a=1&b=2"], "auto_send": ["yes", "x"], "auto_delete": ["true", "no"],
+               "namespaces": ['a="http://x"', "a=b", "a", '="x"', 'a="http://x" a="http://y"', 'a:b="x"', '1a="http://x"', 'xmlns="http://x"'],
+               "style": ["pages", "theme-grid x"], "instance_name": ["concat('a',${q})", "${nope}", "'x'"], "instance_id": ["uid", "x y"], "instance_xmlns": ["http://x", "a b"],
+               "omit_instanceID": ["yes", "no", "x"], "allow_choice_duplicates": ["yes", "bob"], "name": ["data", "1a", "a b", "meta"], "sms_keyword": ["k"], "attribute::x": ["v"],
+               "attribute::a b": ["v"], "attribute::a:b": ["v"], "clean_text_values": ["no", "yes"], "flat": ["yes"], "id_string": ["x"], "title": ["t"]}
+FZ_CHOICE_COLS = ["label", "label::en", "label::fr", "image", "media::image", "media::image::en", "audio", "video", "big-image", "media::big-image::fr", "cf", "x y", "1a", "name", "value",
+                  "list name", "list_name", "sms_option", "geometry", "label::", "::en", "media::", "jr", "a:b"]
+FZ_ENT_COLS = ["dataset", "list_name", "label", "entity_id", "create_if", "update_if", "repeat", "x", "dataset ", "Dataset", "name", "type", "parameters"]
+
+
+def rich_sheets(rng, form):
+    """settings values, choices/entities/external_choices/osm sheets with sparse, misnamed and duplicated columns. Cells are never the empty string:
+    no reader delivers one (an empty cell is an absent key)."""
+    def cell(opts):
+        return rng.choice(opts)
+    if rng.random() < 0.7:
+        form["settings"] = [{k: cell(v) for k, v in rng.sample(sorted(FZ_SETTINGS.items()), rng.randint(1, 4))}]
+    if rng.random() < 0.6:
+        ch = []
+        for _ in range(rng.randint(1, 4)):
+            r = {c: cell(["a", "A b", "${q}", "x.png", "1"]) for c in rng.sample(FZ_CHOICE_COLS, rng.randint(1, 4))}
+            if rng.random() < 0.8:
+                r["list_name"] = rng.choice(["l", "m", "l "])
+            if rng.random() < 0.8:
+                r["name"] = rng.choice(["a", "b", "a b", "1"])
+            ch.append(r)
+        form["choices"] = ch
+    if rng.random() < 0.4:
+        form["entities"] = [{c: cell(["e", "__x", "a.b", "${q}", "true()", "r", "x y"]) for c in rng.sample(FZ_ENT_COLS, rng.randint(1, 4))} for _ in range(rng.choice([1, 1, 2]))]
+        if rng.random() < 0.5:
+            for r in form["survey"]:
+                if rng.random() < 0.4:
+                    r["save_to"] = rng.choice(["p", "name", "__p", "a b", "label"])
+    if rng.random() < 0.3:
+        form["external_choices"] = [{c: cell(["a", "l", "x"]) for c in rng.sample(["list_name", "name", "label", "state", "x y", "list name", "value"], rng.randint(1, 4))}
+                                    for _ in range(rng.randint(1, 3))]
+    if rng.random() < 0.25:
+        form["osm"] = [{c: cell(["a", "l", "zz", "k"]) for c in rng.sample(["list_name", "name", "label", "label::en", "x", "list name"], rng.randint(1, 4))} for _ in range(rng.randint(1, 3))]
 
 
 def _check_fuzz(args):
